@@ -30,7 +30,7 @@ ASSUMPTIONS = simlib.SIM_ASSUMPTIONS + [
     "voltages 208/240/120 V, period 5 min concrete; one scheduler call from an arbitrary reachable pre-state (any accepted previous pilots, any battery power limits, any requested energies with remaining demand > 1e-3 kWh, any stored rampdown bounds in [0, max pilot]); session ids differ from station ids",
     "sorting keys that depend on symbolic energies (laxity, remaining processing time) fork on every comparison: all orders are explored",
 ]
-EXPECT_GLOBAL_TAGS = ("greedy", "rr", "bisection", "discrete_fallback_or_level", "finished_session_gets_0", "vacant_station_gets_0", "sim:ran", "history:foreign", "history:second_call")
+EXPECT_GLOBAL_TAGS = ("greedy", "rr", "bisection", "discrete_fallback_or_level", "finished_session_gets_0", "vacant_station_gets_0", "sim:ran", "history:foreign", "history:second_call", "history:second_call_after_update")
 SLACK = 1e-9 * 100
 
 
@@ -73,7 +73,7 @@ def h_state(cx, stations, rows, sessions, algo, sort, estimator, uninterrupted, 
         return ALG.RoundRobin(alglib.sort_fn(sort), continuous_inc=inc, **kw)
 
     sc = alglib.build(cx, stations, rows, sessions, factory, limit_hi=limit_hi, unplugged=vacate, sym_battery=(estimator == "rampdown"), finite_prev=finite_prev,
-                      warmup=(history == "second_call"), foreign=(history == "foreign"))
+                      warmup=({"second_call": True, "second_call_after_update": "update"}.get(history, False)), foreign=(history == "foreign"))
     if history:
         cx.tag("history:" + history)
     cx.tag(algo)
@@ -277,9 +277,9 @@ def jobs(tier):
     # history: the judged call is preceded (a) by an unrelated simulation in the same process on a network with the same ids and
     # coefficient rows but other phase angles / voltages / limits, (b) by a call of the same algorithm object on the same
     # network, after which every constraint is updated through update_constraint
-    hist = [("greedy", 0, "fcfs", "foreign"), ("rr", 2, "edf", "foreign"), ("greedy", 2, "edf", "second_call"), ("rr", 0, "lcfs", "second_call")]
+    hist = [("greedy", 0, "fcfs", "foreign"), ("rr", 2, "edf", "foreign"), ("greedy", 2, "edf", "second_call_after_update"), ("rr", 0, "lcfs", "second_call_after_update"), ("rr", 2, "fcfs", "second_call")]
     if not q:
-        hist += [(a, mi, s_, h) for a in ("greedy", "rr") for mi in (0, 1, 2) for s_ in ("fcfs", "llf") for h in ("foreign", "second_call")]
+        hist += [(a, mi, s_, h) for a in ("greedy", "rr") for mi in (0, 1, 2) for s_ in ("fcfs", "llf") for h in ("foreign", "second_call", "second_call_after_update")]
     for a, mi, s_, h in hist:
         st, rows, lh = mixes2[mi]
         add("%s[mix%d,%s,history=%s]" % (a, mi, s_, h), stations=st, rows=rows, sessions=SESS2, algo=a, sort=s_, estimator=None, uninterrupted=(h == "foreign"), limit_hi=lh, inc=0.05, history=h)
